@@ -4,6 +4,44 @@ package jd
 
 func init() {
 	vHarnesses["VerifC05Flat"] = VerifC05Flat
+	vHarnesses["VerifC05Nest"] = VerifC05Nest
+	vHarnesses["VerifC05Docs"] = VerifC05Docs
+}
+
+func vC05Check(a, b JsonNode, k int, label string) {
+	opts := vOptions(k)
+	if vKnown("hash.alias") {
+		vAssumeNoHashAlias(a, b)
+	}
+	if isMergeOpt(k) {
+		vAssume(!vHasNull(a) && !vHasNull(b))
+	}
+	d := a.Diff(b, opts...)
+	eq := a.Equals(b, opts...)
+	vObserve("empty", len(d) == 0)
+	vObserve("equals", eq)
+	vAssert((len(d) == 0) == eq, "diff emptiness disagrees with Equals")
+	vCover(label + "." + optName(k))
+}
+
+// VerifC05Nest: arrays holding numbers, arrays and objects (nested lists / sets / bags).
+func VerifC05Nest() {
+	k := vOptChoice(0x77)
+	n := vParam("N", 2)
+	how := [...]int{0, 1}[vChoice(vParam("WRAPS", 1))]
+	vC05Check(vWrap(vNestArray(n), how), vWrap(vNestArray(n), how), k, "c05.nest")
+}
+
+// VerifC05Docs: objects, scalars and void, keyed arrays.
+func VerifC05Docs() {
+	switch vChoice(3) {
+	case 0:
+		vC05Check(vObjDoc(0), vObjDoc(0), vOptChoice(0x77), "c05.obj")
+	case 1:
+		vC05Check(vScalarOrVoid(), vScalarOrVoid(), vOptChoice(0x77), "c05.void")
+	default:
+		vC05Check(vKeyedArray(1), vKeyedArray(1), optSetKeys, "c05.keyed")
+	}
 }
 
 // VerifC05Flat: the diff is empty exactly when the documents are equal.
